@@ -119,9 +119,11 @@ def sweep_ops(rng, exe, n_problems, wild=False):
     """Exhaustive stop injection: for fixed runs, `stop()` during every event index (problem
     evaluation, direction call or progress callback)."""
     ops = []
-    for _ in range(n_problems):
+    for i in range(n_problems):
+        # the first base run has many initial step-size backtracks (stop() lands inside that loop)
+        init = S.init_sweep_overrides(rng) if i == 0 else {}
         base = gen_run(rng, stop=False, wild=wild, maxiter=rng.choice([2, 3, 4]), nanat=0, oot=0,
-                       trace=0)
+                       trace=0, **init)
         out, rc, err = C.run_lines(exe, [base.line()])
         if rc != 0 or not out:
             continue
